@@ -433,21 +433,28 @@ def battery_receiver_history(seed):
         ("setext", 'v.SetExtendedCoordinates(el("%s"), el("%s"), el("%s"), el("%s"))' % (fe(C[0] * lam), fe(C[1] * lam), fe(lam), fe(C[0] * C[1] * lam)), C),
         ("add", 'v.Add(pt("%s"), pt("%s"))' % (ref.ed_encode(A).hex(), ref.ed_encode(B2).hex()), ref.ed_add(A, B2)),
         ("negate", 'v.Negate(pt("%s"))' % ref.ed_encode(A).hex(), ref.ed_neg(A)),
+        ("negate of a sum (Z != 1)", 'v.Negate(new(Point).Add(pt("%s"), pt("%s")))' % (ref.ed_encode(A).hex(), ref.ed_encode(B2).hex()), ref.ed_neg(ref.ed_add(A, B2))),
+        ("copy of a sum (Z != 1)", 'v.Set(new(Point).Add(pt("%s"), pt("%s")))' % (ref.ed_encode(A).hex(), ref.ed_encode(C).hex()), ref.ed_add(A, C)),
+        ("cofactor multiple", 'v.MultByCofactor(pt("%s"))' % ref.ed_encode(B2).hex(), ref.ed_mul(8, B2)),
+        ("subtract", 'v.Subtract(pt("%s"), pt("%s"))' % (ref.ed_encode(A).hex(), ref.ed_encode(B2).hex()), ref.ed_add(A, ref.ed_neg(B2))),
         ("basemult", 'v.ScalarBaseMult(sc("%s"))' % k1.to_bytes(32, "little").hex(), ref.ed_mul(k1, ref.BASE)),
         ("scalarmult", 'v.ScalarMult(sc("%s"), pt("%s"))' % (k1.to_bytes(32, "little").hex(), ref.ed_encode(B2).hex()), ref.ed_mul(k1, B2)),
     ]
     cases = []
     for n1, c1, _ in prods:
         for n2, c2, w2 in prods:
-            cases.append('{"%s then %s", func(v *Point) { %s; %s }, "%s", "%s"},' % (n1, n2, c1, c2, ref.ed_encode(w2).hex(), mont(w2)))
-            cases.append('{"%s, read, then %s", func(v *Point) { %s; _ = v.Bytes(); _ = v.BytesMontgomery(); _, _, _, _ = v.ExtendedCoordinates(); %s }, "%s", "%s"},' % (n1, n2, c1, c2, ref.ed_encode(w2).hex(), mont(w2)))
+            sums = '"%s", "%s", "%s"' % (ref.ed_encode(ref.ed_add(A, w2)).hex(), ref.ed_encode(ref.ed_add(A, ref.ed_neg(w2))).hex(), ref.ed_encode(ref.ed_mul(k1, w2)).hex())
+            cases.append('{"%s then %s", func(v *Point) { %s; %s }, "%s", "%s", %s},' % (n1, n2, c1, c2, ref.ed_encode(w2).hex(), mont(w2), sums))
+            cases.append('{"%s, read, then %s", func(v *Point) { %s; _ = v.Bytes(); _ = v.BytesMontgomery(); _, _, _, _ = v.ExtendedCoordinates(); %s }, "%s", "%s", %s},' % (n1, n2, c1, c2, ref.ed_encode(w2).hex(), mont(w2), sums))
     code = '''package edwards25519
 import ("testing"; "encoding/hex"; "filippo.io/edwards25519/field")
 func hx(s string) []byte { b, _ := hex.DecodeString(s); return b }
 func el(s string) *field.Element { e, _ := new(field.Element).SetBytes(hx(s)); return e }
 func pt(s string) *Point { p, err := new(Point).SetBytes(hx(s)); if err != nil { panic(err) }; return p }
 func sc(s string) *Scalar { x, err := new(Scalar).SetCanonicalBytes(hx(s)); if err != nil { panic(err) }; return x }
-type rh struct { name string; f func(v *Point); enc, mont string }
+type rh struct { name string; f func(v *Point); enc, mont, plus, minus, mul string }
+const aEnc = "%s"
+const kHex = "%s"
 func TestVerif(t *testing.T) {
  cases := []rh{
 %s
@@ -464,11 +471,17 @@ func TestVerif(t *testing.T) {
   if err != nil || hex.EncodeToString(w.Bytes()) != c.enc { t.Fatalf("HIT one receiver, %%s: ExtendedCoordinates do not reproduce the point (err=%%v)", c.name, err) }
   u := NewGeneratorPoint()
   if _, err := u.SetExtendedCoordinates(X, Y, Z, T); err != nil || hex.EncodeToString(u.Bytes()) != c.enc { t.Fatalf("HIT %%s exported and imported into a used receiver: wrong point (err=%%v)", c.name, err) }
+  // the point as an operand of later arithmetic (second and first position), and as the base of a scalar multiplication
+  if got := hex.EncodeToString(new(Point).Add(pt(aEnc), v).Bytes()); got != c.plus { t.Fatalf("HIT one receiver, %%s: A + v = %%s, expected %%s", c.name, got, c.plus) }
+  if got := hex.EncodeToString(new(Point).Add(v, pt(aEnc)).Bytes()); got != c.plus { t.Fatalf("HIT one receiver, %%s: v + A = %%s, expected %%s", c.name, got, c.plus) }
+  if got := hex.EncodeToString(new(Point).Subtract(pt(aEnc), v).Bytes()); got != c.minus { t.Fatalf("HIT one receiver, %%s: A - v = %%s, expected %%s", c.name, got, c.minus) }
+  if got := hex.EncodeToString(new(Point).ScalarMult(sc(kHex), v).Bytes()); got != c.mul { t.Fatalf("HIT one receiver, %%s: [k]v = %%s, expected %%s", c.name, got, c.mul) }
+  if got := hex.EncodeToString(new(Point).VarTimeDoubleScalarBaseMult(sc(kHex), v, NewScalar()).Bytes()); got != c.mul { t.Fatalf("HIT one receiver, %%s: VarTimeDoubleScalarBaseMult(k, v, 0) = %%s, expected %%s", c.name, got, c.mul) }
   n := new(Point).Negate(v); n.Negate(n)
   if hex.EncodeToString(n.Bytes()) != c.enc { t.Fatalf("HIT one receiver, %%s: double negation encodes differently", c.name) }
  }
 }
-''' % "\n".join(cases)
+''' % (ref.ed_encode(A).hex(), k1.to_bytes(32, "little").hex(), "\n".join(cases))
     rc, out = native.go_test(code)
     if rc != 0:
         hit = [l_ for l_ in out.splitlines() if "HIT " in l_]
